@@ -13,7 +13,7 @@ Extracted:
 * dotnet parse_type_spec: the guard `*depth == MAX_RECURSION -> Err` followed by
   `*depth += 1`, and whether the counter is ever decremented.
 """
-import re
+import re, os
 from tlib import *
 
 FILES = {"pe": "lib/src/modules/pe/parser.rs", "dotnet": "lib/src/modules/dotnet/parser.rs", "dex": "lib/src/modules/dex/parser.rs"}
@@ -85,6 +85,21 @@ def main():
     for c in ("MAX_STRINGS", "MAX_TYPES", "MAX_CLASSES"):
         need(dx, r"\.take\(Self::" + c + r"\)", f"dex: .take({c})")
 
+    # macho parse_exports: how a node of the export trie is recognised as visited
+    macho = strip_comments(open(os.path.join(REPO, "lib/src/modules/macho/parser.rs"), encoding="latin-1").read())
+    pex = re.sub(r"\s+", " ", fn_body(macho, "parse_exports"))
+    need(pex, r"let mut stack = Vec::<ExportNode>::new\(\);", "parse_exports: explicit stack of nodes")
+    need(pex, r"while !stack\.is_empty\(\) && !data\.is_empty\(\) \{ let export_node = stack\.pop\(\)\.unwrap\(\);", "parse_exports: pops one node per iteration")
+    need(pex, r"let node_data = match data\.get\(export_node\.offset\.\.\) \{ Some\(data\) => data, None => continue, \};", "parse_exports: nodes outside the trie data are skipped")
+    need(pex, r"let \(mut edge_remainder, edges\) = u8\(remaining_data\)\?;", "parse_exports: the number of edges of a node is a u8")
+    vis = re.search(r"let mut visited = HashSet::<([^>]*(?:<[^>]*>)?[^>]*)>::new\(\);", pex)
+    ins = re.findall(r"visited\.insert\(([^;]*?)\)\s*\{", pex)
+    if not vis or len(ins) != 1 or not re.search(r"if !visited\.insert\(", pex):
+        raise TranslateError("parse_exports: `visited` set / `if !visited.insert(..) { continue }` not found")
+    key_is_offset = vis.group(1).strip() == "usize" and ins[0].strip() == "export_node.offset"
+    if pex.count("visited.") != 1:
+        raise TranslateError("parse_exports: the visited set is used in an unexpected way (removed from? cleared?)")
+
     lines = []
     for k in ("pe", "dotnet", "dex"):
         for n, v in cs[k]:
@@ -106,6 +121,11 @@ Definition rsrc_deepest_level : nat := {queue_guard if queue_guard is not None e
 Definition rsrc_walk_remembers_visited : bool := {'true' if visited else 'false'}.
 (* parse_rsrc_dir: number_of_named_entries, number_of_id_entries <= 32768 each *)
 Definition rsrc_max_entries_per_dir : N := 65536.
+
+(* macho parse_exports: a trie node is recognised as already visited by its
+   offset alone (false: by something finer, e.g. (offset, prefix), so that a
+   node reached along two paths is expanded twice) *)
+Definition trie_visited_key_is_offset : bool := {'true' if key_is_offset else 'false'}.
 
 (* dotnet parse_type_spec: is the shared depth counter ever decremented? *)
 Definition dotnet_depth_decremented : bool := {'true' if decremented else 'false'}.
